@@ -19,6 +19,9 @@ claimed = {
  "C09": ("pairing on all paths + lock-set + dominance over go/ssa",
          "Decides slot pairing on every exit (enter/defer exit in run, exit/defer enter in EvaluateTargets, no other mover), capacity only under gate.m with the zero test, Wait and decrement in one critical section, +1/-1 deltas, Signal after increment, work inside a slot, waiting outside, limit = runtime.NumCPU().",
          "Trusts go/ssa and Mutex/Cond semantics; the instantaneous bound follows from these but is not observed."),
+ "C15": ("panic-site typing over the static call closure of Decode, recover-handler typestate, loop-progress classification, non-nil push sources, guard-interval bounds lint on record consumers (go/ssa)",
+         "Decides that every explicit panic reachable from Decode carries an error, that Decode/Encode install (first thing, unconditionally) a handler converting every error-valued panic including runtime.Error into the named result, that each decoder loop consumes input or has a bounded induction variable, that pushed/returned values are non-nil, and that the record consumers outside the recover scope have no unguarded len(x)-k/constant index, unchecked assertion or reachable panic (found and fixed F9).",
+         "Trusts go/ssa and go.starlark.net; memory exhaustion and 32-bit length overflow are outside the property. Crash-freedom for all byte strings is not itself proven."),
  "C20": ("lock-set + dominance/must-facts over go/ssa",
          "Decides guarded-by on cache.entries, re-check of the same key under the write lock before the call with no unlock through to the update, update only on the nil-error edge with the call's value, hits return the stored value.",
          "Trusts go/ssa and sync.RWMutex semantics."),
